@@ -154,12 +154,13 @@ class JSONPointer:
                     raise JSONPointerIndexError("index out of range") from None
                 # Handle non-standard index pointer.
                 if isinstance(key, str) and key.startswith("#"):
-                    _index = int(key[1:])
-                    if _index >= len(obj):
-                        raise JSONPointerIndexError(
-                            f"index out of range: {_index}"
-                        ) from err
-                    return _index
+                    _index = self._index(key[1:])
+                    if isinstance(_index, int):
+                        if _index >= len(obj):
+                            raise JSONPointerIndexError(
+                                f"index out of range: {_index}"
+                            ) from err
+                        return _index
                 # Try int index. Reject non-zero ints that start with a zero.
                 if isinstance(key, str):
                     index = self._index(key)
